@@ -127,6 +127,10 @@ impl Backend for SyncB {
     type Sub = Subscriber<OVal>;
 
     fn u_new(v: OV) -> Self::U {
+        // (the default value is the occasion to go through `Default`)
+        if v == OV(0, 0, 0) {
+            return Default::default();
+        }
         Observable::new(OVal::new(v))
     }
     fn u_subscribe(u: &Self::U) -> Self::Sub {
@@ -174,6 +178,9 @@ impl Backend for SyncB {
     }
 
     fn s_new(v: OV) -> Self::S {
+        if v == OV(0, 0, 0) {
+            return Default::default();
+        }
         SharedObservable::new(OVal::new(v))
     }
     fn s_clone(s: &Self::S) -> Self::S {
@@ -317,6 +324,9 @@ impl Backend for AsyncB {
     type Sub = Subscriber<OVal, AsyncLock>;
 
     fn u_new(v: OV) -> Self::U {
+        if v == OV(0, 0, 0) {
+            return Default::default();
+        }
         Observable::new_async(OVal::new(v))
     }
     fn u_subscribe(u: &Self::U) -> Self::Sub {
@@ -357,6 +367,9 @@ impl Backend for AsyncB {
     }
 
     fn s_new(v: OV) -> Self::S {
+        if v == OV(0, 0, 0) {
+            return Default::default();
+        }
         SharedObservable::new_async(OVal::new(v))
     }
     fn s_clone(s: &Self::S) -> Self::S {
